@@ -1443,9 +1443,12 @@ impl DtlsInner {
             if let Some(keys) = &ctx.session_keys {
                 let crypto = create_session_crypto(keys.clone())?;
                 let state = DtlsState::Connected(Arc::new(crypto), ctx.srtp_profile);
-                *self.state.lock() = state.clone();
+                // Publish the write epoch / sequence before the state: `send()`
+                // may run on another thread as soon as it observes `Connected`
+                // and must not allocate from the epoch-0 counters.
                 self.write_epoch.store(ctx.epoch, Ordering::SeqCst);
                 self.write_seq.store(ctx.sequence_number, Ordering::SeqCst);
+                *self.state.lock() = state.clone();
                 let _ = self.state_tx.send(state);
                 #[cfg(rustrtc_verif)]
                 self.vemit("connected", serde_json::json!({"kh": vkeyhash(keys), "profile": ctx.srtp_profile.map(|p| p as i64).unwrap_or(-1)}));
@@ -1478,9 +1481,10 @@ impl DtlsInner {
                         let crypto = create_session_crypto(keys.clone())?;
 
                         let state = DtlsState::Connected(Arc::new(crypto), ctx.srtp_profile);
-                        *self.state.lock() = state.clone();
+                        // Counters first, state second (see the server branch).
                         self.write_epoch.store(ctx.epoch, Ordering::SeqCst);
                         self.write_seq.store(ctx.sequence_number, Ordering::SeqCst);
+                        *self.state.lock() = state.clone();
                         let _ = self.state_tx.send(state);
                         #[cfg(rustrtc_verif)]
                         self.vemit("connected", serde_json::json!({"kh": vkeyhash(keys), "profile": ctx.srtp_profile.map(|p| p as i64).unwrap_or(-1)}));
@@ -1967,7 +1971,20 @@ impl DtlsInner {
                         } else {
                             (&keys.server_write_key, &keys.server_write_iv)
                         };
-                        let full_seq = ((ctx.epoch as u64) << 48) | ctx.sequence_number;
+                        // After the handshake the record sequence is owned by the
+                        // atomic counter that `send()` allocates from; the handshake
+                        // context's value is stale by then and would reuse the nonce
+                        // of the first ApplicationData record.
+                        let connected = matches!(*self.state.lock(), DtlsState::Connected(..));
+                        let (alert_epoch, alert_seq) = if connected {
+                            (
+                                self.write_epoch.load(Ordering::SeqCst),
+                                self.write_seq.fetch_add(1, Ordering::SeqCst),
+                            )
+                        } else {
+                            (ctx.epoch, ctx.sequence_number)
+                        };
+                        let full_seq = ((alert_epoch as u64) << 48) | alert_seq;
                         if let Ok(encrypted) = encrypt_record(
                             ContentType::Alert,
                             ProtocolVersion::DTLS_1_2,
@@ -1979,8 +1996,8 @@ impl DtlsInner {
                             let record = DtlsRecord {
                                 content_type: ContentType::Alert,
                                 version: ProtocolVersion::DTLS_1_2,
-                                epoch: ctx.epoch,
-                                sequence_number: ctx.sequence_number,
+                                epoch: alert_epoch,
+                                sequence_number: alert_seq,
                                 payload: Bytes::from(encrypted),
                             };
                             let mut buf = BytesMut::new();
